@@ -86,6 +86,7 @@ namespace pika::detail {
 
         if (stop_requested(old_state)) return false;
 
+        PIKA_VERIF_POINT(75, this);
         auto expected = old_state & ~stop_state::locked_flag;
         while (!state_.compare_exchange_weak(expected,
             old_state | stop_state::stop_requested_flag | stop_state::locked_flag,
@@ -123,6 +124,7 @@ namespace pika::detail {
         }
         else if (!stop_possible(old_state)) { return false; }
 
+        PIKA_VERIF_POINT(76, this);
         auto expected = old_state & ~stop_state::locked_flag;
         while (!state_.compare_exchange_weak(expected, old_state | stop_state::locked_flag,
             std::memory_order_acquire, std::memory_order_relaxed))
